@@ -150,16 +150,19 @@ func c16SharedWrites(w *run.Worker, env *c16Env, ops []c16Op) {
 		}
 		for step, oi := range seq {
 			before := c16RootHashes(env)
-			sync0 := atomic.LoadInt64(&vsync.SyncOps)
+			sync0, excl0 := atomic.LoadInt64(&vsync.SyncOps), atomic.LoadInt64(&vsync.ExclOps)
 			out := ops[oi].Do(env, step)
 			w.Eval()
 			w.Outcome("shared|" + ops[oi].Name + "|" + out)
 			if strings.HasPrefix(out, "PANIC") {
 				w.Violate("C16:panic:"+ops[oi].Name, out, c16Case{Part: "shared-writes", Ops: seq})
 			}
-			if atomic.LoadInt64(&vsync.SyncOps) != sync0 {
-				w.Note("segments_with_lock_operations(exempt)", 1)
+			if atomic.LoadInt64(&vsync.ExclOps) != excl0 {
+				w.Note("segments_with_exclusive_lock_operations(exempt)", 1)
 				continue
+			}
+			if atomic.LoadInt64(&vsync.SyncOps) != sync0 {
+				w.Note("segments_with_read_locks_only(not exempt)", 1)
 			}
 			if changed := c16DiffRoots(env, before); len(changed) > 0 {
 				w.Violate("C16:shared-state-written:"+ops[oi].Name+":"+changed[0],
@@ -231,7 +234,7 @@ func c16Explore(w *run.Worker, env *c16Env, ops []c16Op, combo []int, bound int,
 	var sharedBefore uint64
 	var syncBefore int64
 	mk := func() []func() {
-		syncBefore = atomic.LoadInt64(&vsync.SyncOps)
+		syncBefore = atomic.LoadInt64(&vsync.ExclOps)
 		for _, p := range c16Pools() {
 			p.Drain()
 		}
@@ -274,8 +277,8 @@ func c16Explore(w *run.Worker, env *c16Env, ops []c16Op, combo []int, bound int,
 		for _, pr := range tr.problems {
 			w.Violate("C16:pool-ownership:"+strings.SplitN(pr, ":", 2)[0], pr+"\n"+desc(), cs)
 		}
-		if atomic.LoadInt64(&vsync.SyncOps) != syncBefore {
-			w.Note("schedules_with_lock_operations(shared-hash exempt)", 1)
+		if atomic.LoadInt64(&vsync.ExclOps) != syncBefore {
+			w.Note("schedules_with_exclusive_lock_operations(shared-hash exempt)", 1)
 		} else if h, _ := c16SharedHash(env); h != sharedBefore {
 			w.Violate("C16:shared-state-written-during-schedule", desc(), cs)
 		}
@@ -376,13 +379,13 @@ func c16Run(w *run.Worker) {
 	// idempotent afterwards (lazy initialisation, scratch buffers) are only visible now
 	for oi := range ops {
 		before := c16RootHashes(env)
-		sync0 := atomic.LoadInt64(&vsync.SyncOps)
+		excl0 := atomic.LoadInt64(&vsync.ExclOps)
 		out := ops[oi].Do(env, 0)
 		w.Eval()
 		if strings.HasPrefix(out, "PANIC") {
 			w.Violate("C16:panic:"+ops[oi].Name, out, c16Case{Part: "shared-writes", Ops: []int{oi}})
 		}
-		if atomic.LoadInt64(&vsync.SyncOps) == sync0 {
+		if atomic.LoadInt64(&vsync.ExclOps) == excl0 {
 			if changed := c16DiffRoots(env, before); len(changed) > 0 {
 				w.Violate("C16:shared-state-written:"+ops[oi].Name+":"+changed[0],
 					fmt.Sprintf("the first execution of %s in a fresh process changed shared state without synchronisation: %v — a concurrent reader or writer races with it", ops[oi].Name, changed),
@@ -492,7 +495,7 @@ func init() {
 		ID:    "C16",
 		Level: "model_checking",
 		Rule: "8 operations: parse(valid source exercising every token kind), parse(invalid source), load of a second script set whose files have the same text as the running ones but a different callee, run of shared loaded scripts plain / grok+add_pattern / use() of two callees / loops+collections / every builtin, each on its own point; " +
-			"(1) every operation alone and every ordered pair: the deep hash (reflection+unsafe, unexported fields included) of everything reachable from the shared roots — the loaded scripts and EVERY package-level variable of the 9 repo packages (generated accessors) — must be unchanged by the operation unless it performed a lock/once operation; " +
+			"(1) every operation alone and every ordered pair: the deep hash (reflection+unsafe, unexported fields included) of everything reachable from the shared roots — the loaded scripts and EVERY package-level variable of the 9 repo packages (generated accessors) — must be unchanged by the operation unless it performed an exclusive lock/once operation (read locks do not exempt); " +
 			"(2) cooperative scheduler over the sync.Pool shim: all 28 pairs with <=2 preemptions (thorough 3) and all 84 triples with <=1 (thorough 2) at every pool/lock operation, first thread chosen too; oracles per schedule: each result equals the alone-run, no panic, no deadlock, pooled objects owned by one goroutine between Get and Put (no put by non-owner, no double put, no object handed out twice, no modification while pooled), shared hash unchanged; " +
 			"(3) separate free-running -race pass over all pairs, triples and 8/16-goroutine fan-outs (non-exhaustive, reported apart); distinct = distinct schedules",
 		Assumptions: []string{
